@@ -16,7 +16,7 @@ RULE = (
     "source / destination grid pairs (hull, Voronoi with generator points supplied as face centres, lat-lon, and solids where "
     "n_node == n_face or n_node == n_edge) x data on nodes, edges or faces (the dimension name decides) with 0-2 leading "
     "dimensions x the three destinations x both coordinate types x nearest-neighbour or inverse-distance weighting (k in "
-    "2..min(8, n), power in {0.5, 1, 2, 3, 5}). Oracles: brute-force great-circle nearest source element of the data's own "
+    "2..min(8, n), power in {0.5, 1, 2, 3, 4, 5}; a quarter of the meshes are regional patches with cells of 1e-3 .. 0.5 degrees, where distance ** power is below the 1e-6 regularisation of the weights). Oracles: brute-force great-circle nearest source element of the data's own "
     "kind (destinations whose runner-up is within 1e-9 rad are skipped); identity when remapped onto the source's own "
     "elements; for IDW the full weight matrix is extracted with one call on an identity-matrix field and must be a convex "
     "combination supported on the brute-force k nearest, non-increasing with distance, and every other field must equal "
@@ -40,8 +40,11 @@ GAP = 1e-9
 
 @st.composite
 def _mesh(draw, big, solids=True):
-    fam = draw(sampled_from(["hull", "hull", "voronoi-centres", "latlon", "solid", "solid"] if solids else ["hull", "voronoi-centres", "latlon"]))
-    if fam == "hull":
+    fam = draw(sampled_from(["hull", "hull", "voronoi-centres", "latlon", "solid", "solid", "fine", "fine"] if solids else ["hull", "voronoi-centres", "latlon"]))
+    if fam == "fine":
+        # regional patch with cells of 1e-3 .. 0.5 degrees: distance ** power drops below the 1e-6 the weights are regularised with
+        m = draw(meshgen.tiny_patch_mesh())
+    elif fam == "hull":
         m = draw(meshgen.hull_mesh(4, 26 if big else 12, partial=True))
     elif fam == "voronoi-centres":
         m = draw(meshgen.voronoi_mesh(6, 20 if big else 12, renumber=False))
@@ -71,7 +74,7 @@ def _case(draw, tier):
         "k": draw(sampled_from([2, 3, 4, 5, 6, 7, 8, 8, 8])),
         # arguments equal to the documented defaults (remap_to="face centers", coord_type="spherical", power=2, k=8) are left out
         "defaults": draw(st.booleans()),
-        "power": draw(sampled_from([0.5, 1, 2, 2, 3, 5])),
+        "power": draw(sampled_from([0.5, 1, 2, 2, 3, 4, 5])),
         "lead": draw(st.lists(st.integers(1, 3), max_size=2)),
         "dtype": draw(sampled_from(["float64", "float64", "float32", "int64"])),
         "seed": draw(st.integers(0, 2**31 - 1)),
@@ -107,6 +110,10 @@ def classify(case):
         labs.append("src:n_node==n_edge")
     if ne == nf:
         labs.append("src:n_edge==n_face")
+    if case["src"].get("family") == "tiny-patch":
+        labs.append("src:fine-patch")
+        if case["dst"] is None and case["method"] == "idw":
+            labs.append("idw-fine-patch-onto-itself:" + case["coord_type"])
     if case["dst"] is None:
         labs.append("onto-source-grid:" + str(case.get("twin") or "object"))
     if case.get("radius_src") not in (None, 1.0) or case.get("radius_dst") not in (None, 1.0):
